@@ -21,10 +21,16 @@ import (
 
 var defineRe = regexp.MustCompile(`((?:_v\d+|_now|_)(?:, (?:_v\d+|_now|_))*) := `)
 
+// clockVar is true when the package declares `var timeNow = time.Now` (the injectable clock): then `timeNow()` reads the clock.
+var clockVar bool
+
 func isTimeNow(e ast.Expr) bool {
 	c, ok := e.(*ast.CallExpr)
 	if !ok || len(c.Args) != 0 {
 		return false
+	}
+	if id, ok := c.Fun.(*ast.Ident); ok && id.Name == "timeNow" && clockVar {
+		return true
 	}
 	sel, ok := c.Fun.(*ast.SelectorExpr)
 	if !ok || sel.Sel.Name != "Now" {
@@ -99,6 +105,9 @@ func canon(f *gofacts.File, fd *ast.FuncDecl) string {
 	}
 	ren(fd.Body)
 	s := defineRe.ReplaceAllString(f.Src(fd.Body), "var $1 = ")
+	if clockVar {
+		s = strings.ReplaceAll(s, "var _now = timeNow() ", "var _now = time.Now() ")
+	}
 	// the clock is read exactly once, before it is used; its declaration is dropped from the canonical text
 	const decl = "var _now = time.Now() "
 	if i := strings.Index(s, decl); i >= 0 {
@@ -201,11 +210,40 @@ func keyExpr(f *gofacts.File, fd *ast.FuncDecl) (string, string) {
 	return "unknown", printed
 }
 
+// gtKind classifies a condition meaning "elapsed time since t compares greater than d": `now.Sub(t) > d` (gt), `>=` (ge) and the
+// equivalent After/Before spellings on `t.Add(d)`; anything else is unknown. (For t = a stored time stamp and |d| < 292 years
+// `t.Add(d)` does not overflow, so the spellings agree; a zero t is never compared this way.)
+func gtKind(cond, now, t, d string) string {
+	switch cond {
+	case now + ".Sub(" + t + ") > " + d, now + ".After(" + t + ".Add(" + d + "))", t + ".Add(" + d + ").Before(" + now + ")":
+		return "gt"
+	case now + ".Sub(" + t + ") >= " + d, "!" + now + ".Before(" + t + ".Add(" + d + "))", "!" + t + ".Add(" + d + ").After(" + now + ")":
+		return "ge"
+	}
+	return "unknown"
+}
+
+// ltKind: "elapsed time since t compares less than d": `now.Sub(t) < d` (lt), `<=` (le), and Before/After on `t.Add(d)`.
+// With a zero t (first send) `now.Sub(t)` saturates and `t.Add(d)` lies far in the past: both say "not less".
+func ltKind(cond, now, t, d string) string {
+	switch cond {
+	case now + ".Sub(" + t + ") < " + d, now + ".Before(" + t + ".Add(" + d + "))", t + ".Add(" + d + ").After(" + now + ")":
+		return "lt"
+	case now + ".Sub(" + t + ") <= " + d, "!" + now + ".After(" + t + ".Add(" + d + "))", "!" + t + ".Add(" + d + ").Before(" + now + ")":
+		return "le"
+	}
+	return "unknown"
+}
+
 func extract(repo, leanDir string) {
 	vl := gofacts.MustLoad(repo, "vcode/vlogic.go")
 	cd := gofacts.MustLoad(repo, "vcode/code.go")
 	ut := gofacts.MustLoad(repo, "idgen/random/util.go")
 	tx := gofacts.MustLoad(repo, "tex/duration.go")
+
+	// the injectable clock, if any: `var timeNow = time.Now` at package level of code.go or vlogic.go, assigned nowhere else
+	pkgSrc := cd.Src(cd.AST) + " " + vl.Src(vl.AST)
+	clockVar = strings.Count(pkgSrc, "var timeNow = time.Now ") == 1 && strings.Count(pkgSrc, "timeNow =") == 1
 
 	// the key expressions (read from the AST before the bodies are canonicalised)
 	sendFmt, sendRHS := keyExpr(vl, vl.Func("sender", "SendSMSCode"))
@@ -251,7 +289,13 @@ func extract(repo, leanDir string) {
 	const retryIf = "if c.verifyCount > s.MaxVerifyCount { return ErrVerifyCodeRetryLimit }"
 	const codeIf = "if c.code != code { return ErrVerifyCodeNotMatch }"
 	const hashIf = "if c.hash != hash { return ErrVerifyCodeHashNotMatch }"
-	const ttlIf = "if _now.Sub(c.setTime) > s.TTL.Duration() { return ErrVerifyCodeTimeout } return nil }"
+	const ttlPre, ttlPost = "if ", " { return ErrVerifyCodeTimeout } return nil }"
+	ttlCmp, ttlIf := "unknown", "?"
+	if i := strings.LastIndex(cv, ttlPre); i >= 0 && strings.HasSuffix(cv, ttlPost) && i+len(ttlPre) <= len(cv)-len(ttlPost) {
+		cond := cv[i+len(ttlPre) : len(cv)-len(ttlPost)]
+		ttlCmp = gtKind(cond, "_now", "c.setTime", "s.TTL.Duration()")
+		ttlIf = ttlPre + cond + ttlPost
+	}
 	countsFirst := strings.HasPrefix(cv, "{ c.updateVerify() "+retryIf) &&
 		cd.Body("vCache", "updateVerify") == "{ c.verifyCount++ }" && strings.Count(cv, "verifyCount") == 1 &&
 		strings.Count(cv, "updateVerify") == 1
@@ -263,10 +307,14 @@ func extract(repo, leanDir string) {
 		gofacts.Has(cd.Body("", "newSenderCache"), "return &vCache{counterTime: now}")
 
 	// checkSend (no locals)
-	checkSend := vl.Body("sender", "checkSend") == "{ if now.Sub(c.setTime) < s.MinInterval.Duration() { return ErrSendTooFreq } "+
-		"if now.Sub(c.counterTime) > s.CounterDuration.Duration() { c.refresh(now) return nil } "+
-		"if c.sendCount > s.MaxCount { return ErrSendCountLimit } return nil }" &&
-		sameSet(stmts(cd, cd.Func("vCache", "refresh")), "c.counterTime = now", "c.sendCount = 0")
+	minCmp, winCmp := "unknown", "unknown"
+	checkSend := false
+	if m := regexp.MustCompile(`^\{ if (.+?) \{ return ErrSendTooFreq \} if (.+?) \{ c\.refresh\(now\) return nil \} ` +
+		`if c\.sendCount > s\.MaxCount \{ return ErrSendCountLimit \} return nil \}$`).FindStringSubmatch(vl.Body("sender", "checkSend")); m != nil {
+		minCmp = ltKind(m[1], "now", "c.setTime", "s.MinInterval.Duration()")
+		winCmp = gtKind(m[2], "now", "c.counterTime", "s.CounterDuration.Duration()")
+		checkSend = sameSet(stmts(cd, cd.Func("vCache", "refresh")), "c.counterTime = now", "c.sendCount = 0")
+	}
 
 	// genCode (_v0 = len(phone), _v1 = padded code, _v2 = loop counter)
 	genCode := canon(vl, vl.Func("sender", "genCode")) == "{ if !s.Mock { return random.SecGenNonceStr(numChars, s.CodeLen) } var _v0 = len(phone) "+
@@ -296,14 +344,14 @@ func extract(repo, leanDir string) {
 set_option linter.unusedVariables false
 /-! GENERATED by `+"`c19 extract`"+` from vcode/vlogic.go, vcode/code.go, idgen/random/util.go, tex/duration.go — do not edit. -/
 namespace Nv.Gen.C19
-def cfg : Nv.C19.Cfg := ⟨.%s, .%s, .%s⟩
+def cfg : Nv.C19.Cfg := ⟨.%s, .%s, .%s, .%s, .%s, .%s⟩
 def facts : Nv.C19.Facts := ⟨%s⟩
 end Nv.Gen.C19
-`, sendFmt, verFmt, bound, strings.Join(fs, ", "))
+`, sendFmt, verFmt, bound, minCmp, winCmp, ttlCmp, strings.Join(fs, ", "))
 	if err := gofacts.WriteIfChanged(filepath.Join(leanDir, "Nv/Gen/C19.lean"), out); err != nil {
 		fmt.Fprintln(os.Stderr, err)
 		os.Exit(2)
 	}
-	fmt.Printf("extract C19: sendKeyFmt=%s verifyKeyFmt=%s nonceBound=%s facts(verifyCountsFirst,verifyOrder,updateSendShape,checkSendShape,sendFlow,verifyFlow,genCodeShape,ownCache,nonceLoop,sizeIsOne,simpleCacheIsLRU,durationIdentity)=%s\n",
-		sendFmt, verFmt, bound, strings.Join(fv, ","))
+	fmt.Printf("extract C19: sendKeyFmt=%s verifyKeyFmt=%s nonceBound=%s minIntervalCmp=%s windowCmp=%s ttlCmp=%s clockVar=%v facts(verifyCountsFirst,verifyOrder,updateSendShape,checkSendShape,sendFlow,verifyFlow,genCodeShape,ownCache,nonceLoop,sizeIsOne,simpleCacheIsLRU,durationIdentity)=%s\n",
+		sendFmt, verFmt, bound, minCmp, winCmp, ttlCmp, clockVar, strings.Join(fv, ","))
 }
